@@ -74,6 +74,7 @@ fn new_tr<'a>(idx: &'a Index, reg: &'a Registry, cur: &'a FnEntry) -> Tr<'a> {
         mut_ref_params: Vec::new(),
         ptr_alias: HashMap::new(),
         ptr_array_len: HashMap::new(),
+        identity_aliases: Vec::new(),
         pattern_generics: Vec::new(),
         type_subst: HashMap::new(),
         mut_self: false,
